@@ -564,6 +564,7 @@ type Contract struct {
 	Requires   []Clause
 	Ensures    []Clause
 	Asserts    []Clause // proved at a program point (source-line anchor)
+	Binds      []Clause // ghost names bound to the value of an expression at a program point
 	Modifies   []ModTarget
 	ModNothing bool
 	ModGiven   bool
@@ -634,7 +635,7 @@ type UFDecl struct {
 }
 
 var clauseKeywords = map[string]bool{"ghoststruct": true, "guarded": true, "uf": true, "pred": true,"func": true, "lemma": true, "interface": true, "property": true, "mode": true,
-	"requires": true, "ensures": true, "assert": true, "modifies": true, "inline": true, "trusted": true, "loop": true, "invariant": true,
+	"requires": true, "ensures": true, "assert": true, "bind": true, "modifies": true, "inline": true, "trusted": true, "loop": true, "invariant": true,
 	"decreases": true, "maypanic": true, "forall": false, "ghost": true, "method": true, "assume": true, "vars": true, "nosafety": true, "pure": true, "witness": true, "wraps": true,
 	"atomic": true, "rely": true, "guarantee": true, "addassume": true}
 
@@ -883,6 +884,18 @@ func (db *SpecDB) loadFile(path, pkg string, assumed bool) error {
 				return fmt.Errorf("%s:%d: %v", path, rc.line, err)
 			}
 			curL.Vars = append(curL.Vars, ps...)
+		case "bind":
+			// "bind [G @ source snippet #n] expr": the ghost name G denotes, from the point
+			// where execution reaches the first instruction of that line, the value expr has
+			// there (a way to remember a local's value for later clauses)
+			cl, err := mkClause(rc)
+			if err != nil {
+				return err
+			}
+			if curC == nil || cl.At == "" || cl.Name == "" {
+				return fmt.Errorf("%s:%d: bind needs a func, a name and an anchor [G @ snippet]", path, rc.line)
+			}
+			curC.Binds = append(curC.Binds, cl)
 		case "assert":
 			// "assert [label @ source snippet #n] expr": proved where execution reaches the
 			// first instruction of a source line containing the snippet
